@@ -45,19 +45,26 @@ ASSUMPTIONS = [
     "all theorems are relative to arbitrary basic/full/banned/temporal/nonempty (the property is relative to "
     "string-level validation)",
     "the correspondence runs the model with cf_fixed = true (the code after fix commit f83491d); "
+    "VERIF_C07_FIXED=1 (default) runs the model of the code with fix-F2/F3/F4 (cf_fix_none/value/mask = true); "
     "C07_file_never_raises_refuted (cf_fixed = false) is kept as the record of the repaired defect; likewise the "
     "index-label scrambling of curly-brace references (cf_has_refs = true, C07_labels_refuted) was repaired by fd59dc0 "
     "and the correspondence runs cf_has_refs = false",
-    "C07_row_equals_string / C07_shuffle_invariant need: onset column all numeric, no curly-brace column reference in "
-    "the sidecar (or an already sorted file), effective times (onset + Delay) pairwise distinct; each restriction is "
-    "shown necessary by a *_refuted theorem or a known finding",
+    "C07_row_equals_string / shuffle theorems need: no curly-brace scrambling (holds for the code since fd59dc0) and "
+    "effective times (onset + Delay) pairwise distinct (no same-time merging); the former 'all onsets numeric' hypothesis "
+    "of C07_row_equals_string is gone with fix-F4; C07_shuffle_invariant (full, temporal issues included) speaks about "
+    "files whose onsets are all numeric, as the property's clause does",
     "implementation-side oracle: testing on generated tables, bounded by the generators (histogram in evidence)",
 ]
 
 ADJ = 2   # 1-based rows + header line
 # /repo carries the fix commit f83491d (unit names looked up case-insensitively in get_conversion_factor):
 # the model is run with cf_fixed = true, and a TypeError for a case-variant spelling is a VIOLATION again.
-FIXED = True
+UNIT_FIXED = True
+# fix-F2, fix-F3, fix-F4 (split_delay_tags leaves a Delay group in place when it cannot be moved; the onset mask of
+# _run_checks is indexed by row label).  VERIF_C07_FIXED=1 (default): the tree under test carries the three repairs, the
+# correspondence uses the repaired model and the oracle demands the full statement; 0: the unrepaired behaviour
+# (for an unpatched copy), with the three finding classes accepted as known findings.
+FIXED = int(os.environ.get("VERIF_C07_FIXED", "1"))
 # /repo also carries fix commit fd59dc0 (_handle_curly_braces_refs assigns positionally): the assembled frame is no
 # longer permuted against its index labels, so the model is run with cf_has_refs = false (no realign); the
 # scrambling stays in the model behind cf_has_refs and in C07_labels_refuted as the record of the repaired defect.
@@ -279,12 +286,12 @@ def describe(case, rows):
             "has_refs": bool([r for r in t.get_column_refs() if r in t.columns])}
 
 
-def model_line(desc, fixed=FIXED):
+def model_line(desc, fixed=UNIT_FIXED):
     def oz(x):
         return "N" if x is None else x
     cfg = [1, 1 if desc["has_onset"] else 0, 1 if (desc["has_refs"] and REFS_SCRAMBLE) else 0, desc["cats"],
            1 if fixed else 0,
-           len(desc["pre"]), desc["npost"]]
+           len(desc["pre"]), desc["npost"], FIXED, FIXED, FIXED]
     rows = [[oz(r["onset"]), [list(c) for c in r["cells"]], r["bad"], 1 if r["dtext"] else 0,
              [[oz(n), u] for n, u in r["delays"]]] for r in desc["rows"]]
     err = [[i, 1 if any(s == ERR for _c, s in b) else 0] for i, b in sorted(desc["basic"].items())]
@@ -335,7 +342,7 @@ class Expander:
     def piece_text(self, p):
         from hed.models import HedString
         kind = p[0]
-        ids = p[2:] if kind == "D" else p[1:]
+        ids = p[2:] if kind in ("D", "R") else p[1:]
         txt = ", ".join(self.desc["texts"][int(i)] for i in ids)
         if kind == "C":
             return txt
@@ -343,7 +350,7 @@ class Expander:
         groups = [g for _t, g in hs.find_top_level_tags({"Delay"})]
         if kind == "D":
             return str(groups[int(p[1])])
-        hs.remove(groups)
+        hs.remove([groups[int(k)] for k in p[1]])      # R: the row without the groups that were moved
         return str(hs)
 
     def hed(self, ann):
@@ -400,6 +407,18 @@ class Expander:
 
 # ---------------------------------------------------------------- implementation-side oracle
 
+# the classes of the repaired findings, recognised only when the unrepaired code is checked (VERIF_C07_FIXED=0)
+RETIRED = {
+ "C07-F2": {
+  "what": "file validation raises TypeError (None + float in df_util.split_delay_tags) for a Delay value in an accepted time unit that has no conversionFactor (month, year), e.g. '(Delay/2 years,(Red))'; string validation accepts it [repaired by fix-F2; recognised only with VERIF_C07_FIXED=0]"
+ },
+ "C07-F3": {
+  "what": "file validation raises (TypeError/ValueError in df_util.split_delay_tags, which converts Delay values BEFORE any validation) instead of reporting the issue when a Delay value is one that string validation itself rejects (invalid unit 'Delay/2 S', non-numeric 'Delay/abc s', placeholder 'Delay/#') or stands in a row whose onset is n/a [repaired by fix-F3; recognised only with VERIF_C07_FIXED=0]"
+ },
+ "C07-F4": {
+  "what": "with an n/a onset in the file, _run_checks indexes the onset mask of the SORTED split frame (onset_mask.iloc[row_number]) with the original row label: row-level (full-string) errors of some rows are lost and those of others are reported twice, e.g. rows [n/a 'Red, Red'], [2.0 'Blue'] report no TAG_EXPRESSION_REPEATED [repaired by fix-F4; recognised only with VERIF_C07_FIXED=0]"
+ }
+}
 BAD_F2, BAD_F3 = "C07-F2", "C07-F3"     # (C07-F1, the case-variant spelling, was fixed by f83491d)
 
 
@@ -419,15 +438,24 @@ def bad_delay_classes(desc):
     return out
 
 
+def movable(r, num, cls):
+    """a Delay group takes effect at onset + delay when both are numbers and the unit converts to seconds;
+    otherwise (repaired code) it stays with its row"""
+    return r["onset"] is not None and num is not None and cls in (0, 1, 3)
+
+
 def effective_times(desc):
-    """[(time, row index)] of every piece (row remainder and each Delay group); None when not computable."""
+    """[(time, row index)] of every piece (row remainder and each moved Delay group).
+    Unrepaired code (FIXED=0): None when some group cannot be moved (validation raises)."""
     out = []
     for k, r in enumerate(desc["rows"]):
         out.append((r["onset"], k))
         if r["dtext"]:
             for num, cls in r["delays"]:
-                if r["onset"] is None or num is None or cls not in (0, 1, 3):
-                    return None
+                if not movable(r, num, cls):
+                    if not FIXED:
+                        return None
+                    continue
                 out.append((r["onset"] + num, k))
     return out
 
@@ -456,7 +484,7 @@ def finding_class(desc):
     """Known-finding class a labelling/equality failure of this table may belong to (None = none)."""
     if REFS_SCRAMBLE and desc["has_onset"] and desc["has_refs"] and not is_sorted(desc):
         return "C07-F5"
-    if desc["has_onset"] and any(r["onset"] is None for r in desc["rows"]):
+    if not FIXED and desc["has_onset"] and any(r["onset"] is None for r in desc["rows"]):
         return "C07-F4"
     return None
 
@@ -485,9 +513,12 @@ def temporal_expected(exp, desc):
         if r["dtext"]:
             hs = HedString(txt, exp.sch)
             groups = [g for _t, g in hs.find_top_level_tags({"Delay"})]
-            for (num, _cls), g in zip(r["delays"], groups):
-                pseudo.append((r["onset"] + num, k, str(g)))
-            hs.remove(groups)
+            moved = []
+            for (num, cls), g in zip(r["delays"], groups):
+                if movable(r, num, cls):
+                    pseudo.append((r["onset"] + num, k, str(g)))
+                    moved.append(g)
+            hs.remove(moved)
             txt = str(hs)
         pieces.append((r["onset"], seq, k, txt))
         seq += 1
@@ -516,7 +547,7 @@ def oracle(case, tab, exp, res, tag):
         res.report("never-raises(constructor)", payload, impl["ctor_exn"])
         return None
     if "exn" in impl:
-        classes = bad_delay_classes(desc)
+        classes = bad_delay_classes(desc) if not FIXED else set()    # repaired code: every raise is a violation
         fid = None
         if "split_delay_tags" in impl["frames"] and classes:
             if impl["exn"] == "TypeError" and "unsupported operand" in impl["msg"]:
@@ -586,13 +617,14 @@ def oracle(case, tab, exp, res, tag):
             continue          # same-time merging with another row: not covered by the statement
         got = Counter(code for code, sev, col in by_row.get(k + ADJ, []) if sev == ERR)
         want = string_level(exp, r["series"])
-        if desc["has_onset"]:
+        if desc["has_onset"] and (r["onset"] is not None or not FIXED):
             if r["onset"] is not None and texp is not None:
                 want["TEMPORAL_TAG_ERROR"] += texp.get(k, 0)
             else:
                 got.pop("TEMPORAL_TAG_ERROR", None)
                 want.pop("TEMPORAL_TAG_ERROR", None)
         else:
+            # no onset column, or (repaired code) a row without a numeric onset: temporal tags have no time
             from hed.models import HedString
             hs = HedString(r["series"], exp.sch, exp.dd)
             want["TEMPORAL_TAG_ERROR"] += sum(1 for tg in hs.get_all_tags()
@@ -873,6 +905,9 @@ def spelling_corpus():
 # ---------------------------------------------------------------- run
 
 def run(tier, seed, res, model_ok=True, proof_ok=True):
+    if not FIXED:
+        for fid, f in RETIRED.items():
+            res.known_ids.setdefault(fid, f)
     rng = random.Random(seed)
     ngen = 400 if tier == "quick" else 4000
     if not proof_ok:
